@@ -344,7 +344,11 @@ func pow2Def() string {
 // findForall locates the first "(forall ((bv$NAME SORT)) BODY)" subterm of s at or after from and
 // returns its start, end (exclusive), variable, sort and body.
 func findForall(s string, from int) (int, int, string, string, string, bool) {
-	i := strings.Index(s[from:], "(forall ((bv$")
+	return findForallP(s, from, "(forall ((bv$")
+}
+
+func findForallP(s string, from int, prefix string) (int, int, string, string, string, bool) {
+	i := strings.Index(s[from:], prefix)
 	if i < 0 {
 		return 0, 0, "", "", "", false
 	}
@@ -427,11 +431,14 @@ func substVar(body, name, with string) string {
 // hypotheses at that constant. Sound: instances of hypotheses are consequences of them.
 func skolemHint(lines []string, goalNeg string) (extra []string, newGoal string) {
 	newGoal = goalNeg
-	st, en, name, sort, body, ok := findForall(goalNeg, 0)
-	if !ok || strings.Contains(body, "(forall ") || strings.Contains(body, "(exists ") {
+	st, en, name, sort, body, ok := findForallP(goalNeg, 0, "(forall ((")
+	if !ok || st != 0 || strings.Contains(body, "(forall ") || strings.Contains(body, "(exists ") {
 		return nil, goalNeg
 	}
-	sk := "sk$" + strings.TrimPrefix(name, "bv$")
+	if strings.HasPrefix(body, "(! ") {
+		return nil, goalNeg // patterned quantifier: leave it to the solver
+	}
+	sk := "sk$" + strings.NewReplacer("bv$", "", "$", "_").Replace(name)
 	extra = append(extra, fmt.Sprintf("(declare-fun %s () %s)", sk, sort))
 	newGoal = goalNeg[:st] + substVar(body, name, sk) + goalNeg[en:]
 	n := 0
@@ -636,7 +643,7 @@ func (t *FnTrans) assemble(o *Obligation) string {
 	}
 	if o.Expect == "sat" {
 		b.WriteString("(assert " + o.Goal + ")\n")
-	} else if strings.HasPrefix(o.Goal, "(forall ((bv$") {
+	} else if strings.HasPrefix(o.Goal, "(forall ((") {
 		// goal: guard => forall x. body   ~~>   refute  guard /\ not body[sk]
 		extra, g := skolemHint(t.lines[:o.NLines], o.Goal)
 		for _, e := range extra {
